@@ -25,6 +25,11 @@
 (*   h       per-vertex heuristic in milli-cost, already multiplied by the *)
 (*           weight factor (all 0 for Dijkstra / no target)                *)
 (*   itl,szl iteration / solution-size limits (-1 = none)                  *)
+(*   rtf,rtx runtime limit: rtf = check frequency in iterations (0 = no    *)
+(*           runtime limit), rtx = the budget is exhausted from the start  *)
+(*           (a zero budget).  Otherwise the budget may run out at any     *)
+(*           moment (time is not modelled): exh records the iteration      *)
+(*           count of the first test at which it could be observed         *)
 (*   init    <<distance, time>> initial state                              *)
 (*   cu      <<nd, dd, nt, dt>>: the state is kept here in metres and      *)
 (*           seconds whatever unit the state features are declared in; one *)
@@ -40,9 +45,10 @@
 EXTENDS Naturals, Integers, Sequences, FiniteSets, TLC
 
 VARIABLES scn, queue, g, tree, cur, lastE, todo, iters, outcome, pc,
-          reop   \* history: some expanded vertex has been re-labelled (re-opened)
+          reop,  \* history: some expanded vertex has been re-labelled (re-opened)
+          exh    \* -1: time budget not (known to be) exhausted; n >= 0: exhausted, observable from the test with iters = n
 
-svars == <<scn, queue, g, tree, cur, lastE, todo, iters, outcome, pc, reop>>
+svars == <<scn, queue, g, tree, cur, lastE, todo, iters, outcome, pc, reop, exh>>
 
 K == 1000
 Inf == 2000000000
@@ -96,8 +102,12 @@ H(v) == IF scn.dst = 0 THEN 0 ELSE scn.h[v]
 
 ----------------------------------------------------------------------------
 (* the loop *)
-LimitFires == \/ (scn.itl >= 0 /\ iters + 1 > scn.itl)
-              \/ (scn.szl >= 0 /\ Cardinality(DOMAIN tree) > scn.szl)
+RtOn == scn.rtf > 0
+Sched == RtOn /\ iters % scn.rtf = 0                  \* the runtime is only looked at every rtf-th iteration
+LimitFiresWith(ex) == \/ (scn.itl >= 0 /\ iters + 1 > scn.itl)
+                      \/ (scn.szl >= 0 /\ Cardinality(DOMAIN tree) > scn.szl)
+                      \/ (Sched /\ ex >= 0)
+LimitFires == LimitFiresWith(exh)
 
 Setup(s) == /\ scn' = s
             /\ queue' = (s.src :> (IF s.dst = 0 THEN 0 ELSE s.h[s.src]))
@@ -105,10 +115,13 @@ Setup(s) == /\ scn' = s
             /\ tree' = <<>>
             /\ cur' = 0 /\ lastE' = 0 /\ todo' = {} /\ iters' = 0
             /\ outcome' = "run" /\ pc' = "test" /\ reop' = FALSE
+            /\ exh' = IF s.rtf > 0 /\ s.rtx THEN 0 ELSE -1
 
 TermTest == /\ pc = "test"
-            /\ IF LimitFires THEN outcome' = "terminated" /\ pc' = "done"
-                             ELSE outcome' = outcome /\ pc' = "pop"
+            /\ \E ex \in (IF RtOn /\ exh = -1 THEN {-1, iters} ELSE {exh}) :     \* the budget may have run out by now
+                 /\ exh' = ex
+                 /\ IF LimitFiresWith(ex) THEN outcome' = "terminated" /\ pc' = "done"
+                                          ELSE outcome' = outcome /\ pc' = "pop"
             /\ UNCHANGED <<scn, queue, g, tree, cur, lastE, todo, iters, reop>>
 
 Pop == /\ pc = "pop"
@@ -122,7 +135,7 @@ Pop == /\ pc = "pop"
                     THEN outcome' = "ok" /\ pc' = "done" /\ UNCHANGED <<cur, lastE, todo>>
                     ELSE /\ cur' = v /\ todo' = Inc(v) /\ pc' = "relax" /\ outcome' = outcome
                          /\ lastE' = IF v = scn.src THEN 0 ELSE tree[v].e
-       /\ UNCHANGED <<scn, g, tree, iters, reop>>
+       /\ UNCHANGED <<scn, g, tree, iters, reop, exh>>
 
 Relax(e, imp) ==
    /\ pc = "relax" /\ e \in todo /\ todo' = todo \ {e}
@@ -140,11 +153,11 @@ Relax(e, imp) ==
                                      ELSE (k :> f) @@ queue                       \* push_increase
                       /\ reop' = (reop \/ (k \in DOMAIN g /\ k \notin DOMAIN queue))
                  ELSE UNCHANGED <<g, tree, queue, reop>>
-   /\ UNCHANGED <<scn, cur, lastE, iters, outcome, pc>>
+   /\ UNCHANGED <<scn, cur, lastE, iters, outcome, pc, exh>>
 
 EndExpand == /\ pc = "relax" /\ todo = {}
              /\ iters' = iters + 1 /\ pc' = "test"
-             /\ UNCHANGED <<scn, queue, g, tree, cur, lastE, todo, outcome, reop>>
+             /\ UNCHANGED <<scn, queue, g, tree, cur, lastE, todo, outcome, reop, exh>>
 
 SearchNext == TermTest \/ Pop \/ EndExpand \/ (\E e \in todo, imp \in BOOLEAN : Relax(e, imp))
 
@@ -229,6 +242,9 @@ RouteTurnsAsCoded == LET r == RouteEdges(tree, scn.dst) IN
 AtDone == DoneC01 /\ DoneC02 /\ DoneC03 /\ DoneC04 /\ DoneC05 /\ DoneC10
 
 (* C10 *)
+(* with an exhausted budget the search stops at the next scheduled check: it never gets past the first multiple of rtf
+   at or after the test from which the exhaustion was observable *)
+RtBound == (RtOn /\ exh >= 0) => iters <= ((exh + scn.rtf - 1) \div scn.rtf) * scn.rtf
 IterBound == scn.itl >= 0 => iters <= scn.itl
 SizeBound == scn.szl >= 0 =>
                 Cardinality(DOMAIN tree) <= scn.szl + (IF cur = 0 THEN 0 ELSE Cardinality(Inc(cur)))
